@@ -228,7 +228,29 @@ fn judge_dense(lo: usize, hi: usize, jmin: usize, s: &mut Sink) {
     s.outcome(&("dense", lo / 10_000));
 }
 
+/// dense confidence grid for the level sweeps: every 0.001 step of [0.001, 0.999], every 0.0001 step of
+/// the two end decades, and the immediate neighbourhood of 1/2 (where a one-sided critical value
+/// changes sign), x 3 kinds
+fn dense_confs() -> Vec<(Kind, f64)> {
+    let mut l: Vec<f64> = (1..=999).map(|j| j as f64 / 1000.0).collect();
+    l.extend((10..=100).map(|j| j as f64 / 10_000.0));
+    l.extend((9_900..=9_999).map(|j| j as f64 / 10_000.0));
+    l.extend([0.5 - 1e-9, 0.5 + 1e-9, 0.5 - 1e-4, 0.5 + 1e-4, 0.499, 0.501]);
+    l.sort_by(|a, b| a.partial_cmp(b).unwrap());
+    l.dedup();
+    let mut v = vec![];
+    for x in l {
+        for k in mc::KINDS {
+            v.push((k, x));
+        }
+    }
+    v
+}
+
 enum Job {
+    /// stream queried at the given sizes under the dense confidence grid
+    StreamDense(Vec<usize>),
+    PropDense(usize),
     Dense(usize, usize, usize),
     Stream(Vec<usize>),
     Unp(usize, usize, f64, f64),
@@ -269,11 +291,33 @@ fn run(tier: Tier) -> Sink {
     for n in 4..=tier.pick(120, 400) {
         jobs.push(Job::Prop(n));
     }
+    // level sweeps: all three kinds on the dense confidence grid, at small dof (every n), on a
+    // geometric ladder of larger ones, around the switch and on the normal branch
+    {
+        let mut ns: Vec<usize> = (2..=tier.pick(64, 1000)).collect();
+        let mut x = *ns.last().unwrap() as f64;
+        while x < 99_000.0 {
+            x *= tier.pick(2.0, 1.05);
+            ns.push(x.ceil() as usize);
+        }
+        ns.extend([99_999, 100_000, 100_001, 100_002, 101_500, 131_072]);
+        ns.sort();
+        ns.dedup();
+        for chunk in ns.chunks(tier.pick(8, 16)) {
+            jobs.push(Job::StreamDense(chunk.to_vec()));
+        }
+        for n in 4..=tier.pick(30, 120) {
+            jobs.push(Job::PropDense(n));
+        }
+    }
     jobs.sort_by_key(|j| match j {
         Job::Dense(_, hi, _) => std::cmp::Reverse(*hi),
         _ => std::cmp::Reverse(0),
     });
+    let dconfs = dense_confs();
     par_judge(&jobs, |j, s| match j {
+        Job::StreamDense(p) => judge_stream(p, &dconfs, s),
+        Job::PropDense(n) => judge_prop(*n, &dconfs, s),
         Job::Dense(lo, hi, jmin) => judge_dense(*lo, *hi, *jmin, s),
         Job::Stream(p) => judge_stream(p, &confs, s),
         Job::Unp(na, nb, sa, sb) => judge_unpaired(*na, *nb, *sa, *sb, &confs, s),
@@ -312,7 +356,7 @@ fn main() {
     s.sample(json!({"check":"stream","n":100001,"dof":100000,"kind":"Two","level":0.95,"oracle":"normal CDF (t accepted within 1% of the switch)"}));
     s.sample(json!({"check":"unpaired","na":3,"nb":7,"sa":1.0,"sb":0.25,"oracle":"exact effective dof (real-valued) from rational variances; t CDF at that dof"}));
     s.sample(json!({"check":"proportion","n":30,"k":7,"kind":"Upper","level":0.9,"oracle":"z = sqrt(n)(k/n-p)/sqrt(p(1-p)) at the returned root; Phi(z) = 0.9"}));
-    rep.rule = format!("integer dof: +1,-1,... stream queried at {} sample sizes ({}) x {} confidences; real dof: unpaired two-point constructions (na,nb) in 2..12 squared x 7 sd ratios + 13 large/unbalanced constructions (5 with a sample beyond the population limit); proportion: every admissible (n,k), n<={}; dense sweep: quick dof 15000..100999 x 600 one-sided levels 0.70..0.9995, thorough every dof 1..100999 x 999 levels 0.5005..0.9995 (dense sweep for isolated failures of the upstream quantile routine); distinct by (kind, level, 1-2-5 dof bucket)", query_points(tier).len(), tier.pick("every n<=3000, every n in 99000..101000, 2% geometric steps between, 131072, 200001, 1000001", "every n in 2..101000, 131072, 200001, 1000001"), vcheck::confs(tier).len(), tier.pick(120, 400));
+    rep.rule = format!("integer dof: +1,-1,... stream queried at {} sample sizes ({}) x {} confidences; real dof: unpaired two-point constructions (na,nb) in 2..12 squared x 7 sd ratios + 13 large/unbalanced constructions (5 with a sample beyond the population limit); proportion: every admissible (n,k), n<={}; level sweeps: {} confidences (every 0.001 of [0.001,0.999], every 0.0001 of [0.001,0.01] and [0.99,0.9999], neighbours of 1/2; x 3 kinds) at every n <= {} plus a geometric ladder up to and beyond the switch, and for every admissible (n,k), n <= {}, of the proportion interval; dense sweep: quick dof 15000..100999 x 600 one-sided levels 0.70..0.9995, thorough every dof 1..100999 x 999 levels 0.5005..0.9995 (dense sweep for isolated failures of the upstream quantile routine); distinct by (kind, level, 1-2-5 dof bucket)", query_points(tier).len(), tier.pick("every n<=3000, every n in 99000..101000, 2% geometric steps between, 131072, 200001, 1000001", "every n in 2..101000, 131072, 200001, 1000001"), vcheck::confs(tier).len(), tier.pick(120, 400), dense_confs().len(), tier.pick(64, 1000), tier.pick(30, 120));
     rep.assume("the tolerance floor per dof tier is bounded below by the accuracy of the upstream (statrs) quantile routine; observed maxima per 1-2-5 dof bucket are in coverage.maxima");
     rep.require(s.counter("real-valued-dof-cases") > 100, "fewer than 100 real-valued dof cases");
     rep.require(s.distinct() >= 100, "fewer than 100 distinct classes: vacuous");
